@@ -28,15 +28,15 @@ confirmed=no
 [ "$suite" = pass ] && [ "$demo_with" = fail ] && [ "$demo_without" = pass ] && confirmed=yes
 results=""
 if [ "$confirmed" = yes ]; then
-  tools/alt_sync.sh || exit 2
-  git -C /tmp/ev/repo checkout -q -- . ; git -C /tmp/ev/repo clean -fdq
-  git -C /tmp/ev/repo apply "/verif/$DEST/patch.diff" || { echo "cannot apply to scratch repo"; exit 2; }
+  tools/alt_sync.sh "${EVD:-/tmp/ev}" || exit 2
+  git -C ${EVD:-/tmp/ev}/repo checkout -q -- . ; git -C ${EVD:-/tmp/ev}/repo clean -fdq
+  git -C ${EVD:-/tmp/ev}/repo apply "/verif/$DEST/patch.diff" || { echo "cannot apply to scratch repo"; exit 2; }
   for chk in "$ID" "$@"; do
-    out="$(cd /tmp/ev/verif && VERIF_HANG_S=40 VERIF_REPO=/tmp/ev/repo ./run.sh "$chk" quick 2>/dev/null)"; rc=$?
+    out="$(cd ${EVD:-/tmp/ev}/verif && VERIF_HANG_S=40 VERIF_REPO=${EVD:-/tmp/ev}/repo ./run.sh "$chk" quick 2>/dev/null)"; rc=$?
     if [ $rc -eq 1 ] && echo "$out" | grep -q "^VIOLATION property=$chk "; then r=detected; elif [ $rc -eq 0 ]; then r=missed; else r="error(rc=$rc)"; fi
     results="$results $chk=$r"
   done
-  git -C /tmp/ev/repo checkout -q -- . ; git -C /tmp/ev/repo clean -fdq
+  git -C ${EVD:-/tmp/ev}/repo checkout -q -- . ; git -C ${EVD:-/tmp/ev}/repo clean -fdq
 fi
 python3 - "$DEST" "$ID" "$K" "$suite" "$demo_with" "$demo_without" "$confirmed" "$results" <<'PY'
 import json,sys,os
